@@ -1561,32 +1561,19 @@ def c11a(chk):
 
 
 def zeroing_summary(chk, g):
-    """is g `Count::set_zero`-like: stores const 0 to every element of iter_mut() of the whole vector?"""
+    """is g `Count::set_zero`-like: stores const 0 to every element of the whole vector?  Accepted idioms:
+    iter_mut().for_each(|x| *x = 0), `for x in self.0.iter_mut() { *x = 0 }`, self.0.fill(0)"""
     if g is None:
         return False, "missing"
-    fe = an.calls(g, N.FOR_EACH)
-    if len(fe) != 1:
-        return False, "no single for_each"
-    t = fe[0][1]
-    # receiver: iter_mut over deref_mut of self.0
-    sl, info = g.slice_locals(t["args"][0])
-    names = [callee_name(c["callee"]) for _, c in info["calls"]]
-    whole = any(n == N.SLICE_ITER_MUT for n in names) and not any(x in n for n in names for x in ("skip", "take", "step_by", "filter", "rev", "split", "chunks"))
-    self0 = ("sfs_core::spectrum::count::Count", "0") in info["fields"]
-    cl = None
-    for a in t["args"]:
-        l = op_local(a)
-        if l is not None and "closure" in g.local_ty(l):
-            d = g.single_def(l)
-            if d and d[0] == "assign" and d[3]["k"] == "aggregate":
-                cl = chk.prog.fn(d[3]["closure"])
-    stores = []
-    if cl is not None:
-        for b, i, p, rv, s in cl.assigns():
-            if p == (2, (("deref",),)):
-                stores.append(const_val(rv["op"]) if rv["k"] == "use" else "nonconst")
-    ok = whole and self0 and stores == [0]
-    return ok, "iter_mut over whole self.0=%s/%s, closure stores=%s" % (whole, self0, stores)
+    upd = an.each_element_update(chk.prog, g)
+    if upd is None:
+        return False, "no per-element update recognised"
+    adapt = [a_ for a_ in upd["adaptors"] if a_ not in ("into_iter", "deref_mut", "deref")]
+    whole = (adapt == ["iter_mut"] if upd["kind"] != "fill" else adapt == []) and ("sfs_core::spectrum::count::Count", "0") in upd["fields"]
+    st = upd["store"]
+    zero = st is not None and st["k"] == "use" and const_val(st["op"]) == 0
+    ok = whole and zero and upd["unconditional"]
+    return ok, "%s idiom over the whole self.0=%s, stores const 0=%s, unconditional=%s" % (upd["kind"], whole, zero, upd["unconditional"])
 
 
 def c11b(chk):
